@@ -39,6 +39,10 @@ fn emit_case(otlp: &emit_otlp::Otlp, c: &Case, vid: i64) {
     let kind_typed_metric = emit::Kind::Metric;
     let seqi: Vec<i64> = vec![1, 2];
     let seqf: Vec<f64> = vec![1.5, 2.5];
+    let seqi_zeros: Vec<i64> = vec![0, 0, 0, 0];
+    let seqi_cancel: Vec<i64> = vec![1, -1, 2, -2];
+    let seqf_zeros: Vec<f64> = vec![0.0, -0.0];
+    let seqf_cancel: Vec<f64> = vec![1.5, -1.5];
     let empty: Vec<i64> = vec![];
     let nested: Vec<Vec<i64>> = vec![vec![1], vec![2]];
     let textseq: Vec<&'static str> = vec!["a", "b"];
@@ -80,6 +84,14 @@ fn emit_case(otlp: &emit_otlp::Otlp, c: &Case, vid: i64) {
         "u64big" => props.push(("metric_value", emit::Value::from(u64::MAX))),
         "seqi" => props.push(("metric_value", emit::Value::capture_sval(&seqi))),
         "seqf" => props.push(("metric_value", emit::Value::capture_sval(&seqf))),
+        // boundary totals
+        "i64zero" => props.push(("metric_value", emit::Value::from(0i64))),
+        "f64zero" => props.push(("metric_value", emit::Value::from(0.0f64))),
+        "f64negzero" => props.push(("metric_value", emit::Value::from(-0.0f64))),
+        "seqiZeros" => props.push(("metric_value", emit::Value::capture_sval(&seqi_zeros))),
+        "seqiCancel" => props.push(("metric_value", emit::Value::capture_sval(&seqi_cancel))),
+        "seqfZeros" => props.push(("metric_value", emit::Value::capture_sval(&seqf_zeros))),
+        "seqfCancel" => props.push(("metric_value", emit::Value::capture_sval(&seqf_cancel))),
         "emptySeq" => props.push(("metric_value", emit::Value::capture_sval(&empty))),
         "nestedSeq" => props.push(("metric_value", emit::Value::capture_sval(&nested))),
         "textSeq" => props.push(("metric_value", emit::Value::capture_sval(&textseq))),
